@@ -18,6 +18,8 @@
 // The test FAILS while the defect is present (HANG: Stop does not return within 3 s, or LEAK: Stop
 // returns while the accepted connection was reported open and never closed, or LATE: its close
 // notification is delivered after Stop returned).
+// Status: repaired in /repo by "fix: Stop waits for connection registrations in flight and refuses
+// new ones" (393b7d3); the test passes since then.
 package repro
 
 import (
